@@ -178,6 +178,53 @@ func execC01Direct(c *child.Ctx, k streamCase, cj []byte) {
 	c.Eval(ref.Hash64(input, []byte("direct")), nontrivial)
 }
 
+// execC01Reused decodes a valid frame from a buffer and then, with the same handler,
+// damaged frames of the same type and length written into the same buffer.
+func execC01Reused(c *child.Ctx, r *ref.SplitMix64, frame []byte, cj []byte) {
+	h := handler.New(fixedStart, slog.LevelInfo)
+	buf := make([]byte, len(frame), len(frame)+16)
+	copy(buf, frame)
+	func() {
+		defer func() { recover() }()
+		h.GetMessage(buf)
+	}()
+	for k := 0; k < 4; k++ {
+		copy(buf, frame)
+		switch k {
+		case 0:
+			buf[r.Range(5, len(buf)-4)] ^= byte(1 + r.Intn(255)) // payload byte, CRC bytes intact
+		case 1:
+			buf[len(buf)-1-r.Intn(3)] ^= byte(1 << uint(r.Intn(8)))
+		case 2:
+			bit := r.Range(36, len(buf)*8-25)
+			buf[bit/8] ^= 1 << uint(7-bit%8)
+		default: // the same valid frame again: must still be accepted
+		}
+		if len(buf) <= 9 {
+			copy(buf, frame)
+			buf[len(buf)-1] ^= 0x01
+		}
+		var m *handler.Message
+		var err error
+		func() {
+			defer func() {
+				if rr := recover(); rr != nil {
+					m, err = nil, fmt.Errorf("panic")
+				}
+			}()
+			m, err = h.GetMessage(buf)
+		}()
+		if m != nil && m.MessageType >= 0 && err == nil {
+			if why := checkTyped(m); why != "" {
+				c.Violate("typed-message-not-a-frame", "single-frame decoding from a reused read buffer (a valid frame of the same type and length had been decoded from it before): "+why, cj)
+				return
+			}
+		}
+		c.Count("direct_reused_buffer_decodes", 1)
+	}
+	c.Eval(ref.Hash64(frame, []byte("reused")), true)
+}
+
 // directCandidates builds inputs for single-frame decoding.
 func directCandidate(r *ref.SplitMix64) (b []byte, note string) {
 	f := gen.RandFrame(r)
@@ -281,6 +328,18 @@ func monC01(c *child.Ctx, replay json.RawMessage) {
 				execC01Stream(c, k, cj)
 			}
 		}
+	}
+	// single-frame decoding from one reused read buffer on one handler: a valid frame
+	// first, then candidates of the same length written over it in the same memory
+	nReuse := c.Share(c.Pick(4000, 100000))
+	for i := 0; i < nReuse; i++ {
+		f := gen.RandFrame(r)
+		for !gen.SafeMSMPayload(f.Type, len(f.Bytes)-6) || len(f.Bytes) > 200 {
+			f = gen.RandFrame(r)
+		}
+		k := streamCase{Input: hexs(f.Bytes), Direct: true, Note: "reused buffer"}
+		cj := c.BeginV(k)
+		execC01Reused(c, r, f.Bytes, cj)
 	}
 	nDirect := c.Share(c.Pick(100000, 2000000))
 	for i := 0; i < nDirect; i++ {
@@ -392,6 +451,29 @@ func monC03(c *child.Ctx, replay json.RawMessage) {
 		}
 	}
 	c.Count("payload_lengths_swept", int64(lens))
+	// long sessions: hundreds of junk-then-frame transitions in one stream
+	nLong := c.Pick(2, 6)
+	if c.Batch < 4 || c.Thorough() {
+		for i := 0; i < nLong; i++ {
+			var s gen.Stream
+			pairs := r.Range(70, 400)
+			for j := 0; j < pairs; j++ {
+				if !r.Chance(1, 10) {
+					s = append(s, gen.Seg{Kind: "junk", Type: -1, Bytes: []byte("$GPGGA,1,2*00\r\n")[:r.Range(1, 15)]})
+				}
+				var f gen.Seg
+				for {
+					f = gen.RandFrame(r)
+					if len(f.Bytes) <= 60 {
+						break
+					}
+				}
+				s = append(s, f)
+			}
+			run(s, fmt.Sprintf("long session with %d junk/frame pairs", pairs))
+			c.Count("long_sessions", 1)
+		}
+	}
 	// junk "of any length": runs around the sizes where buffers are typically capped
 	if c.Batch == 0 || c.Thorough() {
 		for _, jl := range []int{4095, 4096, 4097, 32768, 65535, 65536, 65537, 65539, 70000, 131073, 300000} {
@@ -854,6 +936,19 @@ func monC02(c *child.Ctx, replay json.RawMessage) {
 		addInput([]byte{0xD3}, true)
 		addInput([]byte{0xD3, 0xD3, 0xD3, 0xD3}, true)
 		addInput([]byte("junk ending in a preamble\xd3"), true)
+		// a long session: hundreds of junk-then-frame transitions
+		{
+			var b []byte
+			for j := r.Range(80, 300); j > 0; j-- {
+				b = append(b, []byte("$GPTXT,x*00\r\n")[:r.Range(1, 13)]...)
+				f := gen.RandFrame(r)
+				for len(f.Bytes) > 50 {
+					f = gen.RandFrame(r)
+				}
+				b = append(b, f.Bytes...)
+			}
+			addInput(b, true)
+		}
 		// long 0xD3-free runs around typical buffer caps, followed by a frame
 		for _, jl := range []int{4096, 65535, 65536, 65537, 70000} {
 			b := append(gen.NoD3(r.Bytes(jl)), gen.RandFrame(r).Bytes...)
